@@ -6,6 +6,8 @@ use crate::common::*;
 use crate::fixtures;
 use crate::subs_util::*;
 use std::collections::BTreeMap;
+use opcua::server::prelude::*;
+use opcua::server::subscriptions::subscription::Subscription;
 
 pub struct C27;
 pub static P: C27 = C27;
@@ -286,13 +288,41 @@ impl Runner for R {
                 (format!("ok res={} {}", if res.is_ok() { "ok" } else { "toomany" }, self.show(&resps)), v)
             }
             ["setprio", i, p] => {
-                // what ModifySubscription does: get_mut + set_priority
+                // ModifySubscription. The priority that the REAL service leaves on a subscription is
+                // taken from a call of SubscriptionService::modify_subscription on a scratch
+                // subscription (same id, same current priority) in a scratch session — so a service
+                // that ignores, clamps or remaps the requested priority is seen (seed C27c: priority 0
+                // not applied) — and is then put on the world's subscription, whose counters the
+                // model's `setprio` leaves alone. The oracle keeps the REQUESTED priority.
                 let id: u32 = i.parse().unwrap();
                 let p: u8 = p.parse::<u64>().unwrap() as u8;
                 let w = self.w.as_mut().unwrap();
+                let eff = match w.subs.get(id) {
+                    Some(sub) => {
+                        use opcua::verif_hooks::subs as hooks;
+                        let scratch = Subscription::new(w.diagnostics.clone(), id, true, INTERVAL_MS, 30, 10, sub.priority());
+                        let session = std::sync::Arc::new(opcua::sync::RwLock::new(opcua::server::session::Session::new(fx.server_state.clone())));
+                        hooks::session_insert_subscription(&mut session.write(), id, scratch);
+                        let req = ModifySubscriptionRequest {
+                            request_header: RequestHeader::new(&NodeId::null(), &DateTime::now(), 1),
+                            subscription_id: id,
+                            requested_publishing_interval: INTERVAL_MS,
+                            requested_lifetime_count: 30,
+                            requested_max_keep_alive_count: 10,
+                            max_notifications_per_publish: 0,
+                            priority: p,
+                        };
+                        if !matches!(hooks::modify_subscription(fx.server_state.clone(), session.clone(), &req), SupportedMessage::ModifySubscriptionResponse(_)) {
+                            return ("err modify-refused".to_string(), Verdict::fail("service_ok", "setprio", "ModifySubscription refused a valid request"));
+                        }
+                        let e = hooks::session_subscription_params(&session.read(), id).map(|x| x.3);
+                        e.unwrap_or(p)
+                    }
+                    None => p,
+                };
                 match w.subs.get_mut(id) {
                     Some(sub) => {
-                        opcua::verif_hooks::subs::subscription_set_priority(sub, p);
+                        opcua::verif_hooks::subs::subscription_set_priority(sub, eff);
                         self.prio.insert(id, p);
                         (format!("ok {}", self.show(&[])), Verdict::Ok)
                     }
